@@ -900,7 +900,7 @@ def sec_spline(ck, FM, DS):
             nm = "ns_%d(%s)" % (idx, tname)
             got = fracs(d[nm])
             impl_cols[idx] = got
-            if got != col:
+            if got != col and impl_rows_ok:
                 impl_rows_ok = False
                 k = None if kind == "poly" else knots[idx - order - 1]
                 bad = [r for r in range(len(xs)) if got[r] != col[r]][0]
@@ -909,7 +909,6 @@ def sec_spline(ck, FM, DS):
                         "column %s at %s = %s is %s, the spline function %s gives %s" % (
                             nm, tname, xs[bad], got[bad], "x**%d" % idx if kind == "poly" else "(x-%s)**%d * (x > %s)" % (k, order, k), col[bad]),
                         dict(rp, column=nm, datum=str(xs[bad]), impl=str(got[bad]), expected=str(col[bad])))
-                break
         n_named += 1
         if Dm.shape[1] != len(names) or any(fracs(Dm[:, j]) != fracs(d[nm]) for j, nm in enumerate(names)):
             ck.fail("design/float-vs-named-fields/natural_spline", "design(return_float=True) columns differ from the recarray fields %s" % names,
